@@ -327,7 +327,7 @@ func Run(c Case) (*Trace, error) {
 		case "tick":
 			env.Tick(st.Cron)
 		case "settle":
-			if !env.WaitIdle(4*time.Millisecond, 30*time.Second) {
+			if !env.WaitIdle(30*time.Millisecond, 30*time.Second) {
 				tr.Problems = append(tr.Problems, "operator did not become idle within 30s")
 			}
 		}
@@ -342,7 +342,7 @@ func Run(c Case) (*Trace, error) {
 			return nil, fmt.Errorf("harness: %v", err)
 		}
 	}
-	if !env.WaitIdle(4*time.Millisecond, 30*time.Second) {
+	if !env.WaitIdle(30*time.Millisecond, 30*time.Second) {
 		tr.Problems = append(tr.Problems, "operator did not become idle within 30s after start")
 	}
 	recs, _ := env.Tree.ReadLog()
@@ -356,14 +356,14 @@ func Run(c Case) (*Trace, error) {
 			return nil, fmt.Errorf("harness: %v", err)
 		}
 	}
-	if !env.WaitIdle(6*time.Millisecond, 30*time.Second) {
+	if !env.WaitIdle(40*time.Millisecond, 30*time.Second) {
 		tr.Problems = append(tr.Problems, "operator did not become idle within 30s at the end")
 	}
 	// final probe: every schedule crontab once more, so that fresh snapshots are visible at quiescence
 	for _, cr := range Crontabs {
 		env.Tick(cr)
 	}
-	if !env.WaitIdle(6*time.Millisecond, 30*time.Second) {
+	if !env.WaitIdle(40*time.Millisecond, 30*time.Second) {
 		tr.Problems = append(tr.Problems, "operator did not become idle within 30s after the final ticks")
 	}
 	recs, _ = env.Tree.ReadLog()
